@@ -218,6 +218,8 @@ impl FeoxStore {
                 }
                 scc::hash_map::Entry::Occupied(_) => continue,
             };
+            #[cfg(feoxdb_verif)]
+            crate::verif::seam_after_entry_release();
 
             self.stats
                 .record_insert(start.elapsed().as_nanos() as u64, false);
@@ -341,6 +343,8 @@ impl FeoxStore {
                 }
                 scc::hash_map::Entry::Occupied(_) => continue,
             };
+            #[cfg(feoxdb_verif)]
+            crate::verif::seam_after_entry_release();
 
             self.stats
                 .record_insert(start.elapsed().as_nanos() as u64, false);
